@@ -73,6 +73,7 @@ def main(run):
         sc = rnd.choice([1.0, 1.0, 2.0 ** -40, 2.0 ** -60, 2.0 ** 40]) if typ in ("float", "np64", "np32", "Q", "arr0d") else 1.0
         base = ExponentialSmoothingTracker(alpha) if dyn else WelfordTracker()
         mt, twin = MultiValueTracker(base), MultiValueTracker(base)
+        mt_h = None
         mt_update = mt.update if h % 3 == 1 else None       # a bound method taken before the first update, used throughout
         base.update(conv(typ, 17, sc) if typ != "int" else 17)      # the user keeps using the base tracker object: must not matter
         ref = RefMulti(dyn, Q(alpha) if dyn else None)
@@ -120,6 +121,7 @@ def main(run):
                                   {"type": typ, "history": hist, "checkpoint": True})
                     break
                 mt_update = None
+                mt_h = None
                 old_mt.update({keys[0]: conv(typ, 9, sc) if typ != "int" else 9})
             hist.append(upd)
             real = {k: conv(typ, v, sc) for k, v in upd.items()}
@@ -132,6 +134,14 @@ def main(run):
                 dd = collections.defaultdict(lambda: conv(typ, 7, sc) if typ != "int" else 7)
                 dd.update(real)
                 (mt_update or mt.update)(dd)
+            elif h % 4 == 2 and mt_update is None:
+                # fluent style: the caller chains on what update() returned and reads the tracker it created
+                if t == 0 or mt_h is None:
+                    mt_h = mt
+                mt_r = mt_h.update(dict(real))
+                mt_h = mt_r if mt_r is not None else mt_h
+                if t == 0:
+                    run.count("chained-update-histories")
             else:
                 (mt_update or mt.update)(dict(real))
             # twin: same values for keys[0], different history for the others
